@@ -273,11 +273,11 @@ CLAIMED.update({
         design_ref="4/C17, 9"),
     "C18": dict(
         engine="SimDesign", category="model_checking",
-        text=("TLC enumerates every design with at most 2 (3 thorough) attributes off the valid base over 14 attribute classes of "
+        text=("TLC enumerates every design with at most 2 (3 thorough) attributes off the valid base over 15 attribute classes of "
               "specs/SimDesign.tla (visit type, patient number kinds incl. a single individual, standard deviations, mean / std of "
               "the interval incl. a std comparable to the mean, minimal spacing, follow-up zero / decades long, feature list kinds, "
               "missing parameter, table columns / null ages / identifier typing / rows out of order with a repeated age / late ages, "
-              "model with / without sources) and checks Honoured (valid => completes, invalid => refused); every enumerated design is "
+              "model with / without sources, per-feature noise just fitted / scalar noise loaded from a file) and checks Honoured (valid => completes, invalid => refused); every enumerated design is "
               "made concrete and run on a real fitted model under a 10 s watchdog; TLC compares the outcome class (completes / "
               "refused / crash class / timeout) with Outcome and checks the post-conditions of completed runs: exact individuals, "
               "unique increasing ages rounded to the precision implied by the spacing, finite values in [0,1] for every feature, one "
